@@ -65,7 +65,7 @@ func isClosedChan(ch <-chan struct{}) bool {
 	}
 }
 
-func c06RunExit(handler bool, stream []byte) c06ExitObs {
+func c06RunExit(handler bool, mpl int, stream []byte) c06ExitObs {
 	o := c06ExitObs{Survived: true}
 	var mu sync.Mutex
 	var states []string
@@ -81,7 +81,7 @@ func c06RunExit(handler bool, stream []byte) c06ExitObs {
 		return nil
 	})
 	g := &c06GateConn{memConn: inner, entered: make(chan struct{}), release: make(chan struct{})}
-	cli := &mqtt.BaseClient{Transport: g}
+	cli := &mqtt.BaseClient{Transport: g, MaxPayloadLen: mpl}
 	closedCb := make(chan struct{})
 	var closedOnce sync.Once
 	cli.ConnState = func(st mqtt.ConnState, err error) {
@@ -254,4 +254,76 @@ func c06RunAlloc(bodyLen int) c06AllocObs {
 	o.Err = errClass(cli.Err())
 	runtime.GC()
 	return o
+}
+
+// ---------- malformed packets with LARGE bodies, for clients with MaxPayloadLen set ----------
+
+type c06Big struct {
+	stream []byte
+	coq    string // compact Coq expression: literals ++ repeat 90 n ++ ...
+	label  string
+	mpl    int
+	desc   string
+}
+
+// c06BigPacket: header byte h, body = head ++ n fill bytes 5A; optional good packets before / after
+func c06BigPacket(h byte, head []byte, n int, before, after []byte) ([]byte, string) {
+	total := len(head) + n
+	front := append(append(append([]byte{}, before...), h), encVarint(total)...)
+	front = append(front, head...)
+	s := append([]byte{}, front...)
+	for i := 0; i < n; i++ {
+		s = append(s, 0x5A)
+	}
+	s = append(s, after...)
+	coq := fmt.Sprintf("(%s ++ repeat 90 (N.to_nat %d) ++ %s)", cBytes(front), n, cBytes(after))
+	return s, coq
+}
+
+// every malformed kind of ParseSpec that can have a large body, with a body just above the limit
+// MaxPayloadLen+65539 (and 200 KiB / 1 MiB in the thorough tier), preceded and followed by a good
+// packet; plus a well-formed large QoS 1 PUBLISH (MaxPayloadLen limits OUTBOUND messages only).
+func c06BigStreams(tier string) []c06Big {
+	type kind struct {
+		label string
+		h     byte
+		head  []byte
+	}
+	kinds := []kind{
+		{"big:reserved-type-0", 0x00, nil},
+		{"big:reserved-type-15", 0xF0, nil},
+		{"big:subscribe-from-broker", 0x82, []byte{0, 1}},
+		{"big:publish-qos3", 0x36, []byte{0, 1, 'a', 0, 1}},
+		{"big:puback-flags-f", 0x4F, []byte{0, 1}},
+		{"big:suback-flags-1", 0x91, []byte{0, 1}},
+		{"big:connack-long", 0x20, []byte{0, 0}},
+		{"big:nul-in-topic", 0x30, []byte{0, 3, 'a', 0, 'b'}},
+		{"big:pingresp-flags", 0xD1, nil},
+		{"big:pubrel-flags-0", 0x60, []byte{0, 1}},
+	}
+	good := encPublish(inMsg{Topic: []byte("g"), QoS: 1, ID: 3, Payload: []byte{1}})
+	var out []c06Big
+	add := func(k kind, mpl, n int) {
+		s, coq := c06BigPacket(k.h, k.head, n, good, good)
+		out = append(out, c06Big{s, coq, k.label, mpl, fmt.Sprintf("good PUBLISH, then header %02x with a body of %d bytes (%x + fill 5A), then good PUBLISH", k.h, len(k.head)+n, k.head)})
+	}
+	for i, k := range kinds {
+		add(k, 1, 65560) // limit 65540
+		if tier != "quick" || i%5 == 0 {
+			add(k, 100, 65700)
+		}
+		if tier != "quick" || i%5 == 2 {
+			add(k, 65536, 200<<10)
+		}
+		if tier == "thorough" {
+			add(k, 1, 200<<10)
+			add(k, 100, 1<<20)
+			add(k, 0, 65560)
+		}
+	}
+	// well-formed and large: must be processed normally whatever MaxPayloadLen says
+	wf := kind{"big:wellformed-publish-q1", 0x32, []byte{0, 1, 'w', 0, 9}}
+	add(wf, 1, 65560)
+	add(wf, 0, 65560)
+	return out
 }
